@@ -123,5 +123,18 @@ CHECKS['C18'] = dict(
          'chained filesystems with subfolder prefix) and packlist.unify_path are bounded stand-ins.',
     note='trusted: abspath yields normalised absolute paths (so prefix containment means located inside), symlinks '
          'outside the property, POSIX semantics; unify_path bounded-only.')
+CHECKS['C19'] = dict(
+    category='other',
+    technique='contract-based deductive verification of the lookup kernels (pyvc, z3/cvc5 strings with str.replace_all '
+              'and an uninterpreted casefold) and of chain priority; bounded differential test of the four backends',
+    text='Zip and VPK _file_exists/_get_file are proved, for every name and every table, to look the file up under the '
+         'single normal form fold(name with backslashes turned into slashes) and to raise FileNotFoundError exactly when '
+         'that key is absent; FileSystemChain._get_file is proved (three symbolic members with arbitrary prefixes) to '
+         'return the first member, in order, that has the prefix-joined name. Folder walks, byte agreement between the '
+         'in-memory / zip / VPK / directory backends, listed-name-looks-up-to-that-file and de-duplicated chain walks are '
+         'a bounded differential stand-in over generated file sets - not counted as proved.',
+    note='trusted: casefold uninterpreted, zipfile and VPK I/O, pyvc; for names differing only in case the backends '
+         'may keep different candidates (container order) - accepted; backslash spellings on a real directory are host '
+         'dependent and not required.')
 _PENDING = 'not yet built in this session (planned, see DESIGN.md section 3); no check is registered so nothing is claimed'
 NOT_APPLICABLE = {f'C{i:02d}': _PENDING for i in range(1, 21) if f'C{i:02d}' not in CHECKS}
